@@ -5,6 +5,7 @@ import (
 	"encoding/json"
 	"fmt"
 	"os"
+	"reflect"
 	"runtime"
 	"sort"
 	"strconv"
@@ -70,8 +71,55 @@ func c17Arg(a Arg) string {
 		}
 	case Imm:
 		return "i" + strconv.Itoa(int(v.Imm))
+	case Imm64:
+		if !v.Decimal {
+			return "q" + strconv.FormatUint(v.Imm, 10)
+		}
+	case ImmShift:
+		return fmt.Sprintf("s%d:%d", v.imm, v.shift)
+	case MemImmediate:
+		if v.Mode == AddrOffset && v.Base >= RegSP(X0) && v.Base <= RegSP(X0)+31 {
+			return fmt.Sprintf("m%d:%d", int(v.Base-RegSP(X0)), v.imm)
+		}
 	}
 	return "?"
+}
+
+// c17Row finds which table row the real Decode must have used, WITHOUT relying on the decoder's own bookkeeping
+// (decoderCover): it walks the real table with the real canDecode / decodeArg functions.  `first` is the first row that
+// admits the word, `row` the first admitting row whose opcode and arguments equal what Decode returned.
+func c17Row(x uint32, inst Inst) (row, first int) {
+	row, first = -1, -1
+	for i := range instFormats {
+		f := &instFormats[i]
+		if x&f.mask != f.value || (f.canDecode != nil && !f.canDecode(x)) {
+			continue
+		}
+		var args Args
+		ok := true
+		for j, aop := range f.args {
+			if aop == 0 {
+				break
+			}
+			a := decodeArg(aop, x)
+			if a == nil {
+				ok = false
+				break
+			}
+			args[j] = a
+		}
+		if !ok {
+			continue
+		}
+		if first < 0 {
+			first = i
+		}
+		if f.op == inst.Op && reflect.DeepEqual(args, inst.Args) {
+			row = i
+			break
+		}
+	}
+	return
 }
 
 func c17Pcrels(args []string) string {
@@ -86,10 +134,37 @@ func c17Pcrels(args []string) string {
 func TestVerifC17(t *testing.T) {
 	out := vh.OpenOut()
 	defer out.Close()
-	for i := range decoderCover {
-		decoderCover[i] = false
+	conds := map[string]func(uint32) bool{}
+	for i := range instFormats {
+		if f := instFormats[i].canDecode; f != nil {
+			n := runtime.FuncForPC(reflect.ValueOf(f).Pointer()).Name()
+			if k := strings.LastIndex(n, "."); k >= 0 {
+				n = n[k+1:]
+			}
+			conds[n] = f
+		}
 	}
 	for _, op := range vh.ReadOps() {
+		if len(op.Toks) == 3 && op.Toks[0] == "c17.arg" { // the real decodeArg on (kind, word): val | nil | panic
+			k, w := instArg(vh.U64(op.Toks[1])), uint32(vh.U64(op.Toks[2]))
+			out.Put(op.Idx, "%s", vh.Catch(func() string {
+				if decodeArg(k, w) == nil {
+					return "nil"
+				}
+				return "val"
+			}))
+			continue
+		}
+		if len(op.Toks) == 3 && op.Toks[0] == "c17.cond" { // a real canDecode predicate, by its linker name
+			f, ok := conds[op.Toks[1]]
+			if !ok {
+				out.Put(op.Idx, "no-such-predicate")
+				continue
+			}
+			w := uint32(vh.U64(op.Toks[2]))
+			out.Put(op.Idx, "%s", vh.Catch(func() string { return strconv.FormatBool(f(w)) }))
+			continue
+		}
 		if len(op.Toks) < 2 || op.Toks[0] != "c17.dec" {
 			continue
 		}
@@ -106,13 +181,7 @@ func TestVerifC17(t *testing.T) {
 				g = "err:unknown"
 			}
 		default:
-			row := -1
-			for i, c := range decoderCover {
-				if c {
-					row = i
-					decoderCover[i] = false
-				}
-			}
+			row, first := c17Row(w, inst)
 			var as []string
 			for j, a := range inst.Args {
 				if a == nil {
@@ -128,6 +197,9 @@ func TestVerifC17(t *testing.T) {
 				args = strings.Join(as, ",")
 			}
 			g = fmt.Sprintf("row=%d op=%s args=%s", row, inst.Op.String(), args)
+			if first != row {
+				g += fmt.Sprintf(" !first-admitting-row=%d", first) // Decode did not return the first admitting row
+			}
 		}
 		ri, rerr, rstr, rpan := c17Ref(w, true)
 		r := "ref:ok"
@@ -273,6 +345,9 @@ func TestVerifC17Sweep(t *testing.T) {
 	deadline := time.Now().Add(time.Duration(budget) * time.Second)
 	var done int64
 	nw := runtime.GOMAXPROCS(0)
+	if k, err := strconv.Atoi(os.Getenv("VERIF_C17_WORKERS")); err == nil && k > 0 {
+		nw = k
+	}
 	ch := make(chan job, len(jobs))
 	for _, j := range jobs {
 		ch <- j
